@@ -110,10 +110,8 @@ func init() {
 		var mu sync.Mutex
 		add := func(e, n int) { mu.Lock(); evals += int64(e); nontriv += int64(n); mu.Unlock() }
 		// phase A: every set of 1..k retained topics × every filter
-		k := 2
-		if !c.Quick() {
-			k = 3
-		}
+		k := 3
+		_ = c.Quick
 		var sets [][]int
 		var rec func(start int, cur []int)
 		rec = func(start int, cur []int) {
@@ -150,7 +148,7 @@ func init() {
 		for _, t := range ct {
 			ops = append(ops, op{t, "p1"}, op{t, "p2"}, op{t, ""})
 		}
-		seqLen := 3
+		seqLen := 4
 		if !c.Quick() {
 			seqLen = 5
 		}
